@@ -32,10 +32,10 @@ type candidate struct {
 
 // regions of a marshalled RawTreeChange
 type regions struct {
-	framing            []int // offsets of tag / length bytes
-	payOff, payLen     int
-	sigOff, sigLen     int
-	havePay, haveSig   bool
+	framing          []int // offsets of tag / length bytes
+	payOff, payLen   int
+	sigOff, sigLen   int
+	havePay, haveSig bool
 }
 
 func locate(raw []byte) regions {
